@@ -140,6 +140,8 @@ def execute(spec, props=None):
         return {"harness_error": f"wall-clock watchdog fired on {text}", "violations": []}
     violations = list(out.violations)
     feats = sorted(set(spec.get("tags", [])) | set(_exc_features(out)))
+    if any(getattr(t, "h_shift", False) for t in ast.residues()):
+        feats.append("explicit_H_before_attachment_atom")
     if out.phase == "parse" and out.exc is not None:
         if "C06" in props:
             violations.append({"property": "C06", "invariant": "workload_rejected_by_parser",
